@@ -28,7 +28,7 @@ TABLE = {
             "are enumerated. Holds for every sequence of duplicated/resent notifications because the rule covers all "
             "paths of the two handlers.",
             "Decides handler structure only; database uniqueness constraints, message ordering and exceptions from the "
-            "database layer are outside (exception edges are followed for the reset rule, not for the create rule)."),
+            "database layer are outside (exception edges are followed for the reset rule, not for the create rule). (R30f) the run id of the current run data is never rewritten."),
     "C31": ("async check-then-act atomicity rule (await between check and write must be covered by a shared asyncio lock)",
             "On the CFG of the save coroutine the version check, every await and the write of the new method are located; "
             "an await between check and write is accepted only inside an `async with` on a lock object that outlives the "
@@ -132,7 +132,7 @@ TABLE = {
             "state; the Block/Scope Time gate table is extracted from tags_impl and every site that leaves Running must emit a "
             "closing signal (confirmed on the extracted run-state machine with faults); Start and the last segment of "
             "Restart must perform the same resets.",
-            "Numeric increments and threshold timing are not decided. Hold and the error pause emit no signal today (open known findings). Also decided (R07d): the emit_* methods the clock gate depends on reach their fan-out loop on every path (delivery is unconditional), which is the call model the machine uses. R07a also reports every write of a run clock other than the per-tick increment and the reset at run start. Bound: union of the coarse scheduler with one request per tick gap and the exact scheduler of execute_commands with two (quick) / three (thorough) requests per gap."),
+            "Numeric increments and threshold timing are not decided. Hold and the error pause emit no signal today (open known findings). Also decided (R07d): the emit_* methods the clock gate depends on reach their fan-out loop on every path (delivery is unconditional), which is the call model the machine uses. R07a also reports every write of a run clock other than the per-tick increment and the reset at run start. Bound: union of the coarse scheduler with one request per tick gap and the exact scheduler of execute_commands with two (quick) / three (thorough) requests per gap. (R07e) clock tags clear their pause flag when a run starts."),
     "C08": ("reachability/ordering on the extracted run-state machine with ghost variables for output tags and hardware + structural pause-site rule",
             "Ghost variables follow whether the output tags hold live or safe values and what was last written to the "
             "hardware; engine start, every completing Stop and every pause state are checked; every pause site must apply the "
@@ -145,7 +145,7 @@ TABLE = {
             "same generator segment; Pause must not capture over an outstanding capture; writers of _prev_state are "
             "enumerated; on the extracted machine (with error pauses) no reachable Unpause restores a capture from an "
             "earlier run, an already-undone pause, or safe values captured during a pause.",
-            "Decides that a capture cannot outlive its pause; equality of the restored tag values is value-level and not decided. Also decided (R09e): _apply_safe_state captures the pre-value of every safe-valued write register on every loop path, before overwriting it, and returns exactly that collection; _apply_state restores every captured tag unconditionally (the call model the machine uses). The machine also reports a pause that ends with the applied safe values left in place (nothing restored). Bound: union of the coarse scheduler with one request per tick gap and the exact scheduler of execute_commands with two (quick) / three (thorough) requests per gap."),
+            "Decides that a capture cannot outlive its pause; equality of the restored tag values is value-level and not decided. Also decided (R09e): _apply_safe_state captures the pre-value of every safe-valued write register on every loop path, before overwriting it, and returns exactly that collection; _apply_state restores every captured tag unconditionally (the call model the machine uses). The machine also reports a pause that ends with the applied safe values left in place (nothing restored). Bound: union of the coarse scheduler with one request per tick gap and the exact scheduler of execute_commands with two (quick) / three (thorough) requests per gap. (R09f) the capture reads the tag's real value (the slot the safe state overwrites), not the simulation mask; (R09g) the capture is cleared before it is applied, or in a finally."),
     "C10": ("ordered must-call sets on the CFGs of Stop/Restart + class-hierarchy walk of on_stop overrides",
             "Stop._run and Restart._run must call cancel_all_commands(self.name) -> tracking.disable -> emit_on_stop -> "
             "clear_run_id -> _stop_interpreter in dominance order (Restart then, after a yield, set_run_id -> enable -> "
@@ -157,7 +157,7 @@ TABLE = {
             "instance; initialize only when not initialised and before execute; finalize only through guarded sites; from "
             "create_command every path to any exit (normal or raising, under the typestate of a fresh instance) must pass "
             "execute or a finalisation; finalize must dispose.",
-            "Decides the lifecycle structure of the command manager; exceptions thrown by UOD callbacks during finalisation are not decided. R11a classifies cancel sites by their guard (same name / both names in one declared overlap list, directly or through a relation on the uod whose construction must accumulate over the declared lists). Also decided (R11e): every instance handed to the unguarded finalize() of _finalize_command comes from a lookup in (or creation into) the registries finalize() removes instances from, unless the finalisation is idempotent."),
+            "Decides the lifecycle structure of the command manager; exceptions thrown by UOD callbacks during finalisation are not decided. R11a classifies cancel sites by their guard (same name / both names in one declared overlap list, directly or through a relation on the uod whose construction must accumulate over the declared lists). Also decided (R11e): every instance handed to the unguarded finalize() of _finalize_command comes from a lookup in (or creation into) the registries finalize() removes instances from, unless the finalisation is idempotent. (R11d) the dispose is reached even if the finalize callback raises; (R11f) _cancel_command finalizes on every path from cancel() (exceptional ones included) and retires a uod request cancelled before it started."),
     "C12": ("check-before-mutate dominance + sibling agreement of cancel/force handlers + flag-consultation audit of interpreter waiting loops",
             "Record states Cancelled/Forced must not be reachable from a refused node.cancel()/force(); no caller may "
             "disable that check; flags are set only when offered; cancel_instruction and force_instruction must both "
@@ -188,7 +188,7 @@ TABLE = {
             "cancellable=forcible=False last, and append the item; the exclusion table equals the property's list; every "
             "visitor pairs node.completed = True with tracking.mark_completed. All are facts over every record history.",
             "Decides these structural clauses; producibility for arbitrary runtime state orders (the raise sites of the "
-            "generator) and monotonicity of the clock itself are not decided. R15f additionally decides one producibility clause: a command request never receives two different conclusive record states (which makes the generator raise for the rest of the run) - violated on the pinned tree, repaired (fixed entry). (R15f) every cancellation finalizes at once, so no cancelled command reaches a second conclusive mark; (R15g) Tracking.mark_* called with a request/command attribute the state to that request's own invocation."),
+            "generator) and monotonicity of the clock itself are not decided. R15f additionally decides one producibility clause: a command request never receives two different conclusive record states (which makes the generator raise for the rest of the run) - violated on the pinned tree, repaired (fixed entry). (R15f) every cancellation finalizes at once, so no cancelled command reaches a second conclusive mark; (R15g) Tracking.mark_* called with a request/command attribute the state to that request's own invocation. (R15h) last_instance_id is the most recently created invocation."),
     "C34": ("must-precede (sort before use across two cooperating functions), sibling agreement of column iteration, "
             "one-cell-per-entry path count, loop-shape and guard-dominance rules on the sample-and-hold cursor",
             "The row writer's cursor algorithm needs sorted values (established as a side effect of the header writer: "
@@ -231,24 +231,24 @@ TABLE = {
             "Every node class the parser can emit has a visit_<Class> on PInterpreter's MRO, every interpreter command and "
             "engine command name has a handler/class; child_index is incremented once, after the child's generator; completed "
             "nodes are never dispatched; started is set only after the threshold wait; trailing blank/comment lines are never passed.",
-            "Exactly-once and ordering for arbitrary nestings and timings are runtime properties and not decided. The blank/comment rule follows `yield from self.<helper>(node)` delegation and has an instance floor (it once passed vacuously on a refactoring). Also decided (R02c): every normal end of a macro invocation increments the finished counter that guards the body reset, and the reset is recursive."),
+            "Exactly-once and ordering for arbitrary nestings and timings are runtime properties and not decided. The blank/comment rule follows `yield from self.<helper>(node)` delegation and has an instance floor (it once passed vacuously on a refactoring). Also decided (R02c): every normal end of a macro invocation increments the finished counter that guards the body reset, and the reset is recursive. (R02c) the finished counter is incremented in a finally around the body visit (abandoned invocations count); (R02d) every interpreter command completes on every normal path."),
     "C03": ("constant-table agreement (duration units/multipliers) and data-flow orientation of the threshold comparison",
             "The unit list of the duration regexes, the units and folded multipliers of get_duration_end and the groups used by "
             "Wait/Pause/Hold must agree; the threshold comparison must be '<'(scope clock, node.threshold) with the clock "
             "selected by the Block tag and the provider's (main, block) tuple order consistent end to end.",
             "The timing clauses (no later than the first tick, one tick interval) relate two runtime clocks and are not decided; "
-            "an unrecognised rewrite of the anchors yields exit 2, never a violation. Built as role-based dataflow (no local-name matching); a threshold operand that comes from a helper memoised under an incomplete key is a violation, any other helper exits 2. Also decided (R03c): the start operand of Wait / timed Pause / timed Hold has the waiting loop's clock as its only source (helper returns followed) and the node's reset clears it."),
+            "an unrecognised rewrite of the anchors yields exit 2, never a violation. Built as role-based dataflow (no local-name matching); a threshold operand that comes from a helper memoised under an incomplete key is a violation, any other helper exits 2. Also decided (R03c): the start operand of Wait / timed Pause / timed Hold has the waiting loop's clock as its only source (helper returns followed) and the node's reset clears it. (R03d) an activated Watch/Alarm scope is ended when its handler is aborted with its block."),
     "C04": ("dominance / post-dominance rules on the Watch and Alarm visitors and on the block-end sites",
             "The body invocation is reachable only through the activation loop's exit; activation is written only under forced "
             "or a true condition and never for a cancelled node; a cancelled Watch leaves the wait loop before trying to "
             "activate; Watch completion and the Alarm re-arm sequence post-dominate the body; every block_ended = True is "
             "followed by _abort_block_interrupts on all paths.",
-            "Tick-exact interleavings of condition, cancel, force and End block are not decided. Also decided (R04d): every self.visit(child) in _visit_children is dominated by the un-weakened false outcome of _is_in_ended_block(child). Also decided (R04e): on the request-state model of Watch/Alarm (opstatic/condnode.py: boolean request/activation attributes, user cancel/force possible at every yield and accepted exactly when the class' own cancellable/forcible holds, fresh generators from every reachable state) the body is never invoked with the cancel flag set."),
+            "Tick-exact interleavings of condition, cancel, force and End block are not decided. Also decided (R04d): every self.visit(child) in _visit_children is dominated by the un-weakened false outcome of _is_in_ended_block(child). Also decided (R04e): on the request-state model of Watch/Alarm (opstatic/condnode.py: boolean request/activation attributes, user cancel/force possible at every yield and accepted exactly when the class' own cancellable/forcible holds, fresh generators from every reachable state) the body is never invoked with the cancel flag set. (R04f) a completion of an earlier invocation leaves the re-armed node alone; (R04g) an Alarm that re-arms unregisters the interrupts of the body it resets; (R04h) an interrupt unregistered earlier in the tick is not resumed."),
     "C05": ("sibling agreement of the two End-block visitors + lock acquire/release pairing on the CFG of visit_BlockNode",
             "End block and End blocks must perform the same per-block effect set and write the Block tag; the lock-acquired "
             "branch must announce the block before the body; every normal exit releases the lock; completion after the body is "
             "reachable only once block_ended; the lock is taken only when all locked blocks are ancestors.",
-            "The single-chain invariant over all reachable interpreter states and which block `End block` picks are data-dependent and not decided. R05c is role-based and also requires the set of locked blocks to be read from the lock flags at decision time; a stored snapshot must be refreshed by the statement that takes the lock."),
+            "The single-chain invariant over all reachable interpreter states and which block `End block` picks are data-dependent and not decided. R05c is role-based and also requires the set of locked blocks to be read from the lock flags at decision time; a stored snapshot must be refreshed by the statement that takes the lock. (R05d) End block chooses among locked blocks that have not been ended; (R05e) the Block tag is cleared when Stop/Restart replace the interpreter."),
     "C14": ("lookup-domain agreement rule for interrupts + effect check of inject_node + guard check of the interpreter tick",
             "Every node handed to _register_interrupt must be findable where the live-edit merge looks interrupts up (the "
             "program tree) or the merge must consult the injected-node registry; inject_node may not write method progress; "
@@ -260,7 +260,7 @@ TABLE = {
             "macro_calling_macro's result, lie on no cycle, and be followed by the completion counter; ProgramNode.macros is "
             "written only by _register_macro (unconditional overwrite) and looked up by name at call time; the live-edit "
             "validation raises for a started macro that is missing, retyped or modified.",
-            "Completeness of the recursion detector over arbitrary macro call graphs is out of static reach (it follows only the first Call macro child)."),
+            "Completeness of the recursion detector over arbitrary macro call graphs is out of static reach (it follows only the first Call macro child). (R41d) the recursion search follows every Call macro line and returns a path only if it reaches the target; (R41e) its result is computed at call time."),
     "C17": ("path enumeration of the parser's nesting loop (exactly-once append), id-assignment audit, totality audit against a justified table",
             "Every acyclic path through the body of the indentation loop of parse_method must call append_child(node) exactly "
             "once and the first loop must produce exactly one node per line; every returned node carries an id; partial "
@@ -303,7 +303,7 @@ TABLE = {
             "the transition to Reconnected is reachable only with an empty buffer and buffered messages leave the buffer only on the "
             "path that posts each of them.",
             "Delivery order and duplication under all task interleavings (asyncio.gather ordering) are schedule properties and are "
-            "not decided."),
+            "not decided. (R27e) the gathered posts of a batch are not cancellable once their messages left the buffer."),
     "C39": ("writer-agreement rules over every csv.writer call + value-independence of the omission predicate over the Tag hierarchy",
             "All csv.writer calls of the archiver share one dialect bound to module constants with an escape character whenever "
             "quoting is QUOTE_NONE; header and rows iterate the same tag sequence under the same omission predicate and every "
